@@ -29,11 +29,12 @@ def interactive_part(report, rng, tier):
             with open(hcl, "w") as fh:
                 fh.write(histgen.stat_program(seq))
             flags = rng.choice([["-q"], [], ["-t"]])
-            base = subprocess.run([cli] + flags + [hcl, yo, str(t)], capture_output=True, timeout=60, stdin=subprocess.DEVNULL)
+            targ = rng.choice([str(t), str(t), "0%d" % t, "%04d" % t, "+%d" % t])      # the timeout is a DECIMAL numeral, however it is padded
+            base = subprocess.run([cli] + flags + [hcl, yo, targ], capture_output=True, timeout=60, stdin=subprocess.DEVNULL)
             for k in sorted({0, 1, want_cycles // 2, want_cycles + 3}):
                 opt = rng.choice(["-i", "--interactive"])
                 answers = b"".join(rng.choice([b"\n", b"\n", b"\n", b"next\n", b"\xff\xfe\n", b"\r\n"]) for _ in range(k))
-                r = subprocess.run([cli, opt] + flags + [hcl, yo, str(t)], capture_output=True, timeout=60, input=answers)
+                r = subprocess.run([cli, opt] + flags + [hcl, yo, targ], capture_output=True, timeout=60, input=answers)
                 n += 1
                 out = b"".join(l for l in r.stdout.splitlines(True) if l.strip() != b"(press enter to continue)")
                 prompts = r.stdout.count(b"(press enter to continue)")
